@@ -165,6 +165,11 @@ func (p *bprover) capOf(v ssa.Value, depth int) (blin, bool) {
 	}
 	v = p.canonVal(v)
 	switch x := v.(type) {
+	case *ssa.Call:
+		// slices.Grow(s, n): capacity at least len(s)+n (a lower bound suffices for "high <= cap")
+		if c := x.Call.StaticCallee(); isSlicesGrow(c) && len(x.Call.Args) == 2 {
+			return p.lenOf(x.Call.Args[0]).add(p.linOf(x.Call.Args[1]))
+		}
 	case *ssa.MakeSlice:
 		return p.linOf(x.Cap), true
 	case *ssa.Slice:
@@ -340,4 +345,23 @@ func debugPanics(w *World, names []string) {
 		fmt.Printf("%s: %s %s closed=%v %s\n", w.Pos(ps.ins.Pos()), fnName(ps.fn), ps.desc, ok, how)
 	}
 	fmt.Println("functions", len(fns))
+}
+
+func debugWrites(w *World, names []string) {
+	m := newMemInfo(w)
+	for _, n := range names {
+		fn := w.Func(n)
+		if fn == nil {
+			fmt.Println("unresolved", n)
+			continue
+		}
+		cats := m.writeCats(fn)
+		sort.Strings(cats)
+		fmt.Println(n, len(cats))
+		for _, c := range cats {
+			if strings.HasPrefix(c, "M:") || c == "*" {
+				fmt.Println("   ", c)
+			}
+		}
+	}
 }
